@@ -1,9 +1,12 @@
 #![allow(dead_code)]
 //! drv: drives miniz_oxide (and its C shim) and writes ndjson traces that TLC validates
 //! against the specifications in /verif/spec.
+mod capi;
+mod cks;
 mod comp;
 mod gen;
 mod infl;
+mod reset;
 mod scn_dec;
 mod tr;
 
@@ -194,6 +197,14 @@ fn main() {
         "configs_c10" => scn_configs(&o, &mut tr, "C10"),
         "configs_c11" => scn_configs(&o, &mut tr, "C11"),
         "configs_c09" => scn_configs(&o, &mut tr, "C09"),
+        "streamcomp" => scn_streamcomp(&o, &mut tr, "C02"),
+        "flushes" => scn_flushes(&o, &mut tr, "C12"),
+        "deflate_protocol" => scn_deflate_protocol(&o, &mut tr, "C14"),
+        "capi" => capi::scn_capi(&o, &mut tr, "C17"),
+        "bound" => capi::scn_bound(&o, &mut tr, "C15"),
+        "reset" => reset::scn_reset(&o, &mut tr, "C18"),
+        "snapshots" => reset::scn_snapshots(&o, &mut tr, "C19"),
+        "checksums" => cks::scn_checksums(&o, &mut tr, "C16"),
         "entrypoints" => scn_dec::scn_entrypoints(&o, &mut tr, "C03"),
         "trailing" => scn_dec::scn_trailing(&o, &mut tr, "C06"),
         "schedules" => scn_dec::scn_schedules(&o, &mut tr, "C07"),
@@ -210,4 +221,110 @@ fn main() {
     s["scenario"] = json!(name);
     s["seed"] = json!(o.seed);
     println!("{}", s);
+}
+
+/// C02: streaming compression under arbitrary schedules and configurations.
+fn scn_streamcomp(o: &Opts, tr: &mut Tr, prop: &str) {
+    let mut r = gen::rng(o.seed, 222);
+    let kinds = ["text", "rand", "alpha4", "zeros", "period7", "runs", "mixed", "xx", "planted300", "sparse3"];
+    let outsets: [Vec<usize>; 6] = [
+        vec![1], vec![1, 2, 5], vec![5, 30, 100], vec![1, 30, 85195, 85196, 200000], vec![1 << 20], vec![2, 3, 64, 4096],
+    ];
+    let n = if o.thorough { 600 } else { 150 };
+    for i in 0..n {
+        let kind = kinds[(i + o.seed as usize) % kinds.len()];
+        let size = match i % 9 { 0 => 0, 1 => r.gen_range(1..4), 2 => r.gen_range(4..300), 3 | 4 => r.gen_range(300..3000),
+                                 5 => r.gen_range(3000..9000), 6 => 258 + r.gen_range(0..3), _ => r.gen_range(0..1500) };
+        let data = gen::data(kind, size, &mut r);
+        let lvl = [0u8, 1, 2, 3, 4, 6, 9, 10][r.gen_range(0..8)];
+        let st = r.gen_range(0..5);
+        let wb = [15u8, 15, 15, 8, 9, 12, 14][r.gen_range(0..7)];
+        let cfg = Cfg { zlib: r.gen(), level: lvl, strat: st, wbits: wb, api: if i % 5 == 0 { "flags" } else { "params" } };
+        let cb = i % 7 == 3;
+        let sch = Sched {
+            chunk_pat: ["rand", "fixed1", "all", "rand", "fixed7", "rand"][i % 6].into(),
+            outs: outsets[(i / 2) % outsets.len()].clone(),
+            flush_pct: [0, 10, 30, 60][i % 4],
+            flush_set: vec![1, 2, 3, 5, 6, 7],
+            callback: cb,
+            max_points: 0,
+        };
+        let id = format!("sc{}-{}-{}-l{}-{}-w{}-{}{}", i, kind, size, lvl, STRATS[st].0, wb, sch.chunk_pat, if cb { "-cb" } else { "" });
+        stream_comp_case(tr, &id, prop, &data, &cfg, &sch, &mut r, kind);
+    }
+    // large inputs reaching the real thresholds (LZ buffer full, > 31 KiB incompressible, > 32 KiB history),
+    // cheap for the acceptor (long matches / stored blocks)
+    let bigs: Vec<(&str, usize, u8)> = if o.thorough {
+        vec![("zeros", 200_000, 6), ("rand", 100_000, 0), ("period1000", 150_000, 1), ("runs", 120_000, 9), ("rand", 70_000, 6),
+             ("text", 90_000, 6), ("mixed", 200_000, 2), ("sparse3", 66_000, 1)]
+    } else {
+        vec![("zeros", 100_000, 6), ("rand", 70_000, 0), ("period1000", 90_000, 1), ("rand", 40_000, 6)]
+    };
+    for (bi, (kind, size, lvl)) in bigs.iter().enumerate() {
+        let data = gen::data(kind, *size, &mut r);
+        let cfg = Cfg { zlib: bi % 2 == 0, level: *lvl, strat: 0, wbits: 15, api: "params" };
+        let sch = Sched { chunk_pat: "rand".into(), outs: vec![1000, 85195, 85196, 100000, 7], flush_pct: 5,
+                          flush_set: vec![2, 3, 7], callback: bi % 3 == 2, max_points: 0 };
+        stream_comp_case(tr, &format!("scbig-{}-{}-l{}", kind, size, lvl), prop, &data, &cfg, &sch, &mut r, kind);
+    }
+}
+
+/// C12: flush points.
+fn scn_flushes(o: &Opts, tr: &mut Tr, prop: &str) {
+    let mut r = gen::rng(o.seed, 1212);
+    let kinds = ["text", "rand", "alpha4", "zeros", "runs", "mixed", "xx", "planted300"];
+    let n = if o.thorough { 400 } else { 120 };
+    for i in 0..n {
+        let kind = kinds[(i + o.seed as usize) % kinds.len()];
+        let size = match i % 5 { 0 => r.gen_range(1..50), 1 => r.gen_range(50..600), 2 => r.gen_range(600..3000), 3 => r.gen_range(3000..8000), _ => r.gen_range(0..1000) };
+        let data = gen::data(kind, size, &mut r);
+        let lvl = [0u8, 1, 2, 6, 9][r.gen_range(0..5)];
+        let st = [0usize, 0, 0, 1, 2, 3, 4][r.gen_range(0..7)];
+        let cfg = Cfg { zlib: r.gen(), level: lvl, strat: st, wbits: 15, api: "params" };
+        let sch = Sched {
+            chunk_pat: ["rand", "fixed50", "rand", "fixed300"][i % 4].into(),
+            outs: [vec![1 << 20], vec![100000], vec![1, 40, 100000], vec![200000, 3]][i % 4].clone(),
+            flush_pct: [40, 70, 100][i % 3],
+            flush_set: [vec![2], vec![3], vec![1], vec![1, 2, 3, 5, 6, 7], vec![7, 2], vec![3, 0]][i % 6].clone(),
+            callback: i % 9 == 4,
+            max_points: 6,
+        };
+        let id = format!("fl{}-{}-{}-l{}-{}", i, kind, size, lvl, STRATS[st].0);
+        stream_comp_case(tr, &id, prop, &data, &cfg, &sch, &mut r, kind);
+    }
+    // history > 32 KiB before a full flush
+    for (bi, (kind, size)) in [("period900", 80_000usize), ("zeros", 70_000), ("runs", 50_000)].iter().enumerate() {
+        let data = gen::data(kind, *size, &mut r);
+        let cfg = Cfg { zlib: bi % 2 == 0, level: 6, strat: 0, wbits: 15, api: "params" };
+        let sch = Sched { chunk_pat: "rand".into(), outs: vec![200000], flush_pct: 30, flush_set: vec![3, 2], callback: false, max_points: 3 };
+        stream_comp_case(tr, &format!("flbig-{}-{}", kind, size), prop, &data, &cfg, &sch, &mut r, kind);
+    }
+}
+
+/// C14: deflate() wrapper protocol.
+fn scn_deflate_protocol(o: &Opts, tr: &mut Tr, prop: &str) {
+    use miniz_oxide::MZFlush;
+    let mut r = gen::rng(o.seed, 1414);
+    let kinds = ["text", "rand", "zeros", "mixed", "runs"];
+    let n = if o.thorough { 800 } else { 250 };
+    for i in 0..n {
+        let kind = kinds[i % kinds.len()];
+        let size = match i % 6 { 0 => 0, 1 => r.gen_range(1..5), 2 => r.gen_range(5..400), 3 => r.gen_range(400..4000), 4 => r.gen_range(0..100), _ => r.gen_range(4000..12000) };
+        let data = gen::data(kind, size, &mut r);
+        let cfg = Cfg { zlib: r.gen(), level: [0u8, 1, 6, 9][r.gen_range(0..4)], strat: 0, wbits: 15, api: "params" };
+        let ncalls = r.gen_range(0..14);
+        let mut calls = Vec::new();
+        let misuse_ok = i % 4 == 0; // allow non-Finish after Finish in some cases
+        let mut fin = false;
+        for _ in 0..ncalls {
+            let ch = match r.gen_range(0..5) { 0 => 0, 1 => 1, 2 => r.gen_range(0..50), _ => size };
+            let ol = match r.gen_range(0..8) { 0 => 0, 1 => 1, 2 => 5, 3 => r.gen_range(1..10), 4 => r.gen_range(10..200), _ => 200000 };
+            let mut fl = match r.gen_range(0..10) { 0 | 1 => MZFlush::Sync, 2 => MZFlush::Full, 3 | 4 => MZFlush::Finish, 5 => MZFlush::Partial, _ => MZFlush::None };
+            if fin && !misuse_ok { fl = MZFlush::Finish; }
+            if fl == MZFlush::Finish && ol > 0 { fin = true; }
+            calls.push((ch, ol, fl));
+        }
+        let fo = [1usize, 5, 64, 200000][i % 4];
+        deflate_case(tr, &format!("dp{}-{}-{}", i, kind, size), prop, &data, &cfg, &calls, fo, kind);
+    }
 }
